@@ -1836,6 +1836,378 @@ theorem trace_append (s : St) (pre : List Op) (op : Op) :
   | nil => simp [trace, finalState]
   | cons o t ih => simp [trace, finalState, ih, List.append_assoc]
 
+/-! ### QPACK-blocked streams: the resume path -/
+
+theorem handleFrame_recvEnded {s s' : St} {f : Frame} {e : Bool} {evs : List Event}
+    (h : handleFrame s f e = .ok (s', evs)) : s'.recvEnded = s.recvEnded := by
+  cases f with
+  | data n => obtain ⟨_, rfl, _, _⟩ := handleFrame_data_ok h; rfl
+  | headers hs =>
+    obtain ⟨_, _, _, hcase⟩ := handleFrame_headers_ok h
+    rcases hcase with ⟨_, r, _, rfl⟩ | ⟨_, _, rfl⟩ <;> rfl
+  | pushPromise hs => obtain ⟨rfl, _⟩ := handleFrame_pp_ok h; rfl
+  | other t => obtain ⟨rfl, _⟩ := handleFrame_other_ok h; rfl
+
+theorem processFrames_good {s s' : St} {fs : List Frame} {evs new : List Event}
+    (hg : Good s evs) (h : processFrames s fs = .ok (s', new)) : Good s' (evs ++ new) := by
+  induction fs generalizing s evs new with
+  | nil => simp only [processFrames] at h; cases h; simpa using hg
+  | cons f fs ih =>
+    simp only [processFrames, bind, Except.bind] at h
+    split at h
+    · cases h
+    · rename_i v1 hv1
+      obtain ⟨s1, e1⟩ := v1
+      simp only at h
+      split at h
+      · cases h
+      · rename_i v2 hv2
+        obtain ⟨s2, e2⟩ := v2
+        simp only at h
+        cases h
+        have g1 := handleFrame_good hg hv1
+        have g2 := ih g1 hv2
+        rw [List.append_assoc] at g2
+        exact g2
+
+theorem qreceive_good {s s' : St} {q : QOp} {evs new : List Event}
+    (hg : Good s evs) (h : qreceive s q = .ok (s', new)) : Good s' (evs ++ new) := by
+  cases q with
+  | plain op =>
+    simp only [qreceive] at h
+    split at h
+    · exact receive_good hg h
+    · split at h
+      · cases h; simp only [List.append_nil]; exact good_congr (s := s) hg rfl rfl rfl
+      · cases h; simpa using hg
+  | hdrb hs fin =>
+    simp only [qreceive] at h
+    split at h
+    · cases h
+    · cases h; simp only [List.append_nil]; exact good_congr (s := s) hg rfl rfl rfl
+  | ppb hs fin =>
+    simp only [qreceive] at h
+    split at h
+    · cases h
+    · split at h
+      · cases h
+      · cases h; simp only [List.append_nil]; exact good_congr (s := s) hg rfl rfl rfl
+  | unblock =>
+    simp only [qreceive] at h
+    split at h
+    · cases h; simpa using hg
+    · rename_i f hb
+      simp only [bind, Except.bind] at h
+      split at h
+      · cases h
+      · rename_i v1 hv1
+        obtain ⟨s1, e1⟩ := v1
+        simp only at h
+        split at h
+        · cases h
+        · rename_i v2 hv2
+          obtain ⟨s2, e2⟩ := v2
+          simp only at h
+          cases h
+          have g1 := handleFrame_good hg hv1
+          have g1' : Good { s1 with blocked := none, pending := [] } (evs ++ e1) :=
+            good_congr g1 rfl rfl rfl
+          have g2 := processFrames_good g1' hv2
+          rw [List.append_assoc] at g2
+          exact g2
+
+theorem qstep_good {s : St} (q : QOp) {evs : List Event} (hg : Good s evs) :
+    Good (qstep s q).1 (evs ++ (qstep s q).2.1) := by
+  unfold qstep
+  split
+  · simpa using hg
+  · split
+    · simpa using hg
+    · split
+      · rename_i s' new hr
+        exact qreceive_good hg hr
+      · simp only [List.append_nil]
+        exact good_congr (s := s) hg rfl rfl rfl
+
+theorem qtrace_good {s : St} (qs : List QOp) {evs : List Event} (hg : Good s evs) :
+    Good (qfinal s qs) (evs ++ qtrace s qs) := by
+  induction qs generalizing s evs with
+  | nil => simpa [qfinal, qtrace] using hg
+  | cons q qs ih =>
+    simp only [qfinal, qtrace]
+    rw [← List.append_assoc]
+    exact ih (qstep_good q hg)
+
+theorem qtrace_append (s : St) (pre : List QOp) (q : QOp) :
+    qtrace s (pre ++ [q]) = qtrace s pre ++ (qstep (qfinal s pre) q).2.1 := by
+  induction pre generalizing s with
+  | nil => simp [qtrace, qfinal]
+  | cons o t ih => simp [qtrace, qfinal, ih, List.append_assoc]
+
+/-- on a stream that is not blocked the plain ops behave as before -/
+theorem qstep_plain (s : St) (op : Op) (hb : s.blocked = none) : qstep s (.plain op) = step s op := by
+  unfold qstep step
+  simp [qapplicable, qreceive, hb]
+
+theorem processFrames_events_any {s s' : St} {fs : List Frame} {new : List Event}
+    (h : processFrames s fs = .ok (s', new)) : ∀ ev ∈ new, EventWFAny ev := by
+  induction fs generalizing s new with
+  | nil => simp only [processFrames] at h; cases h; intro ev hev; cases hev
+  | cons f fs ih =>
+    simp only [processFrames, bind, Except.bind] at h
+    split at h
+    · cases h
+    · rename_i v1 hv1
+      obtain ⟨s1, e1⟩ := v1
+      simp only at h
+      split at h
+      · cases h
+      · rename_i v2 hv2
+        obtain ⟨s2, e2⟩ := v2
+        simp only at h
+        cases h
+        intro ev hev
+        rcases List.mem_append.1 hev with h1 | h2
+        · exact eventWF_any (handleFrame_events_wf hv1 ev h1)
+        · exact ih hv2 ev h2
+
+theorem qstep_events_any (s : St) (q : QOp) : ∀ ev ∈ (qstep s q).2.1, EventWFAny ev := by
+  unfold qstep
+  split
+  · intro ev hev; cases hev
+  · split
+    · intro ev hev; cases hev
+    · split
+      · rename_i s' new hr
+        cases q with
+        | plain op =>
+          simp only [qreceive] at hr
+          split at hr
+          · exact fun ev hev => eventWF_any (receive_events_wf hr ev hev)
+          · split at hr <;> (cases hr; intro ev hev; cases hev)
+        | hdrb hs fin =>
+          simp only [qreceive] at hr
+          split at hr
+          · cases hr
+          · cases hr; intro ev hev; cases hev
+        | ppb hs fin =>
+          simp only [qreceive] at hr
+          split at hr
+          · cases hr
+          · split at hr
+            · cases hr
+            · cases hr; intro ev hev; cases hev
+        | unblock =>
+          simp only [qreceive] at hr
+          split at hr
+          · cases hr; intro ev hev; cases hev
+          · simp only [bind, Except.bind] at hr
+            split at hr
+            · cases hr
+            · rename_i v1 hv1
+              obtain ⟨s1, e1⟩ := v1
+              simp only at hr
+              split at hr
+              · cases hr
+              · rename_i v2 hv2
+                obtain ⟨s2, e2⟩ := v2
+                simp only at hr
+                cases hr
+                intro ev hev
+                rcases List.mem_append.1 hev with h1 | h2
+                · exact eventWF_any (handleFrame_events_wf hv1 ev h1)
+                · exact processFrames_events_any hv2 ev h2
+      · intro ev hev; cases hev
+
+theorem qtrace_events_wf (s : St) (qs : List QOp) : ∀ ev ∈ qtrace s qs, EventWFAny ev := by
+  induction qs generalizing s with
+  | nil => intro ev hev; cases hev
+  | cons q qs ih =>
+    intro ev hev
+    simp only [qtrace] at hev
+    rcases List.mem_append.1 hev with h1 | h2
+    · exact qstep_events_any s q ev h1
+    · exact ih _ ev h2
+
+theorem processFrames_err {s : St} {fs : List Frame} {e : Err}
+    (h : processFrames s fs = .error e) : e = msgErr ∨ e = frameUnexpected := by
+  induction fs generalizing s with
+  | nil => simp [processFrames] at h
+  | cons f fs ih =>
+    simp only [processFrames, bind, Except.bind] at h
+    split at h
+    · rename_i e' hv; cases h; exact handleFrame_err hv
+    · rename_i v1 hv1
+      split at h
+      · rename_i e' hv2; cases h; exact ih hv2
+      · cases h
+
+theorem qstep_err (s : St) (q : QOp) (e : Err) (h : (qstep s q).2.2 = some e) :
+    e = msgErr ∨ e = frameUnexpected ∨ e = frameError := by
+  have lift : ∀ {e : Err}, (e = msgErr ∨ e = frameUnexpected) →
+      (e = msgErr ∨ e = frameUnexpected ∨ e = frameError) := by
+    intro e he; rcases he with h1 | h1
+    · exact Or.inl h1
+    · exact Or.inr (Or.inl h1)
+  unfold qstep at h
+  split at h
+  · cases h
+  · split at h
+    · cases h
+    · split at h
+      · cases h
+      · rename_i e' hr
+        simp at h; subst h
+        cases q with
+        | plain op =>
+          simp only [qreceive] at hr
+          split at hr
+          · exact receive_err hr
+          · split at hr <;> cases hr
+        | hdrb hs fin =>
+          simp only [qreceive] at hr
+          split at hr
+          · cases hr; exact Or.inr (Or.inl rfl)
+          · cases hr
+        | ppb hs fin =>
+          simp only [qreceive] at hr
+          split at hr
+          · cases hr; exact Or.inr (Or.inl rfl)
+          · split at hr
+            · cases hr; exact Or.inr (Or.inl rfl)
+            · cases hr
+        | unblock =>
+          simp only [qreceive] at hr
+          split at hr
+          · cases hr
+          · simp only [bind, Except.bind] at hr
+            split at hr
+            · rename_i e'' hv; cases hr; exact lift (handleFrame_err hv)
+            · split at hr
+              · rename_i e'' hv; cases hr; exact lift (processFrames_err hv)
+              · cases hr
+
+theorem qstep_error_no_events (s : St) (q : QOp) (e : Err) (h : (qstep s q).2.2 = some e) :
+    (qstep s q).2.1 = [] ∧ (qstep s q).1.done = true := by
+  unfold qstep at h ⊢
+  split
+  · rename_i hd; simp [hd] at h
+  · rename_i hd
+    split
+    · rename_i ha; simp [hd, ha] at h
+    · rename_i ha
+      split
+      · rename_i s' new hr
+        simp [hd, ha, hr] at h
+      · exact ⟨rfl, rfl⟩
+
+/-- a frame handled with `stream_ended = True` reports the end with its last event -/
+theorem handleFrame_ended_last {s s' : St} {f : Frame} {evs : List Event}
+    (h : handleFrame s f true = .ok (s', evs)) : ∃ ev, evs.getLast? = some ev ∧ ev.ended = true := by
+  cases f with
+  | data n =>
+    obtain ⟨_, _, _, rfl⟩ := handleFrame_data_ok h
+    exact ⟨.data n true, by simp, rfl⟩
+  | headers hs =>
+    obtain ⟨_, rfl, _, _⟩ := handleFrame_headers_ok h
+    exact ⟨_, rfl, rfl⟩
+  | pushPromise hs =>
+    obtain ⟨_, rfl, _⟩ := handleFrame_pp_ok h
+    exact ⟨.data 0 true, by simp, rfl⟩
+  | other t =>
+    obtain ⟨_, rfl, _⟩ := handleFrame_other_ok h
+    exact ⟨.data 0 true, by simp, rfl⟩
+
+theorem processFrames_last {s s' : St} {fs : List Frame} {evs : List Event}
+    (hre : s.recvEnded = true) (hne : fs ≠ [])
+    (h : processFrames s fs = .ok (s', evs)) : ∃ ev, evs.getLast? = some ev ∧ ev.ended = true := by
+  induction fs generalizing s evs with
+  | nil => exact absurd rfl hne
+  | cons f fs ih =>
+    simp only [processFrames, bind, Except.bind] at h
+    split at h
+    · cases h
+    · rename_i v1 hv1
+      obtain ⟨s1, e1⟩ := v1
+      simp only at h
+      split at h
+      · cases h
+      · rename_i v2 hv2
+        obtain ⟨s2, e2⟩ := v2
+        simp only at h
+        cases h
+        cases fs with
+        | nil =>
+          simp only [processFrames] at hv2
+          cases hv2
+          rw [hre] at hv1
+          simpa using handleFrame_ended_last hv1
+        | cons g gs =>
+          have hre1 : s1.recvEnded = true := by rw [handleFrame_recvEnded hv1]; exact hre
+          obtain ⟨ev, hl, he⟩ := ih hre1 (by simp) hv2
+          exact ⟨ev, by rw [List.getLast?_append, hl]; rfl, he⟩
+
+/-- the input makes the end of the stream known to the frame handlers: a FIN on a
+    stream that is not blocked, or the unblocking of a stream whose FIN has arrived -/
+def endsStream (s : St) : QOp → Bool
+  | .plain op => s.blocked.isNone && carriesFin op
+  | .unblock => s.recvEnded
+  | .hdrb _ _ => false
+  | .ppb _ _ => false
+
+theorem qfin_reports_end (s : St) (q : QOp) (hd : s.done = false)
+    (ha : qapplicable s q = true) (hb : endsStream s q = true) (hok : (qstep s q).2.2 = none) :
+    ∃ ev, (qstep s q).2.1.getLast? = some ev ∧ ev.ended = true := by
+  cases q with
+  | plain op =>
+    simp only [endsStream, Bool.and_eq_true, Option.isNone_iff_eq_none] at hb
+    rw [qstep_plain s op hb.1] at hok ⊢
+    have ha' : applicable s op = true := by
+      simp only [qapplicable, Bool.and_eq_true] at ha; exact ha.1
+    exact fin_reports_end s op hd ha' hb.2 hok
+  | hdrb hs fin => simp [endsStream] at hb
+  | ppb hs fin => simp [endsStream] at hb
+  | unblock =>
+    simp only [endsStream] at hb
+    unfold qstep at hok ⊢
+    simp only [hd, ha, Bool.false_eq_true, if_false, not_true_eq_false] at hok ⊢
+    cases hr : qreceive s .unblock with
+    | error e => simp [hr] at hok
+    | ok v =>
+      obtain ⟨s', new⟩ := v
+      simp only
+      simp only [qreceive] at hr
+      split at hr
+      · rename_i hnone
+        simp [qapplicable, hnone] at ha
+      · rename_i f hbk
+        simp only [bind, Except.bind] at hr
+        split at hr
+        · cases hr
+        · rename_i v1 hv1
+          obtain ⟨s1, e1⟩ := v1
+          simp only at hr
+          split at hr
+          · cases hr
+          · rename_i v2 hv2
+            obtain ⟨s2, e2⟩ := v2
+            simp only at hr
+            cases hr
+            cases hp : s.pending with
+            | nil =>
+              rw [hp] at hv2 hv1
+              simp only [processFrames] at hv2
+              cases hv2
+              rw [hb] at hv1
+              simpa using handleFrame_ended_last hv1
+            | cons g gs =>
+              rw [hp] at hv2
+              have hre1 : ({ s1 with blocked := none, pending := [] } : St).recvEnded = true := by
+                show s1.recvEnded = true
+                rw [handleFrame_recvEnded hv1]; exact hb
+              obtain ⟨ev, hl, he⟩ := processFrames_last hre1 (by simp) hv2
+              exact ⟨ev, by rw [List.getLast?_append, hl]; rfl, he⟩
+
 /-! ### what `allDeclaredCL` lists -/
 
 theorem parseContentLength_ok_iff (v : Bytes) (n : Nat) :
